@@ -140,6 +140,57 @@ func c19Check(x *core.Ctx, c *core.Case) {
 	}
 	got := model.FromAST(&back)
 	x.Count("roundtrips")
+	// what validation linked and the encoding carried along still belongs to the node it hangs on: a decoded field's
+	// definition is a definition of THAT field
+	if c.Get("schema") != "" {
+		var check func(a, b ast.SelectionSet) string
+		check = func(a, b ast.SelectionSet) string {
+			for i := range a {
+				if i >= len(b) {
+					return ""
+				}
+				switch s := a[i].(type) {
+				case *ast.Field:
+					d, ok := b[i].(*ast.Field)
+					if !ok {
+						return ""
+					}
+					switch {
+					case (s.Definition == nil) != (d.Definition == nil):
+						return fmt.Sprintf("field %s (alias %q): definition present before encoding: %v, after decoding: %v", s.Name, s.Alias, s.Definition != nil, d.Definition != nil)
+					case s.Definition != nil && (d.Definition.Name != s.Definition.Name || d.Definition.Type.String() != s.Definition.Type.String()):
+						return fmt.Sprintf("field %s (alias %q) decoded with the definition %s: %s", s.Name, s.Alias, d.Definition.Name, d.Definition.Type.String())
+					}
+					if w := check(s.SelectionSet, d.SelectionSet); w != "" {
+						return w
+					}
+				case *ast.InlineFragment:
+					if d, ok := b[i].(*ast.InlineFragment); ok {
+						if w := check(s.SelectionSet, d.SelectionSet); w != "" {
+							return w
+						}
+					}
+				}
+			}
+			return ""
+		}
+		for i, op := range doc.Operations {
+			if i < len(back.Operations) {
+				if w := check(op.SelectionSet, back.Operations[i].SelectionSet); w != "" {
+					x.Violate("roundtrip:field-definition-link", w, "the definition the field had before encoding")
+					return
+				}
+			}
+		}
+		for i, fr := range doc.Fragments {
+			if i < len(back.Fragments) {
+				if w := check(fr.SelectionSet, back.Fragments[i].SelectionSet); w != "" {
+					x.Violate("roundtrip:field-definition-link", w, "the definition the field had before encoding")
+					return
+				}
+			}
+		}
+	}
 	shape, sp, in := shapeOf(want)
 	x.Distinct("shape", shape)
 	if sp > 0 {
